@@ -68,7 +68,7 @@ def step (_ : Unit) (op impl : String) : Unit × Verdict :=
         else if ae == as then
           ((), if ae == me && as == ms then .ok else .diff (me ++ " ;; " ++ ms))
         else if ie == is then
-          if ae == me && as == ms && (e.hasOpenLambda || s.hasOpenLambda) then
+          if ae == me && as == ms && (!e.regSafe || !s.regSafe) then
             ((), .propfail "evalpair class=vm-closure-registers")
           else ((), .propfail ("evalpair language-agrees vm-model=" ++ me ++ " ;; " ++ ms))
         else if Simplify.shadowsGlobal e then ((), .propfail "evalpair class=shadowed-global")
